@@ -49,6 +49,20 @@ def with_faults(rng, case):
     return out + ["restart", "census", "restart", "census"]
 
 
+def big_batch_fault_case(rng):
+    """a batch delete of many live documents with a storage fault late in the batch: the batch is one retry / rollback unit,
+    so a failed batch leaves NO frame behind (seeded change C03-4 retried and rolled back 64-entry chunks on their own)"""
+    n = rng.choice([70, 100, 140])
+    ops = ["cfg dim=1 metric=l2 cap=400 snap=%d rot=100000 fsync=always crash=0 torn=0" % rng.choice([0, 1000])]
+    for i in range(1, n + 1):
+        ops.append("insert id=%d v=%s m=-" % (i, persist.vbits(persist.rand_vec(rng, 1))))
+    call, nth = rng.choice([("write", 1), ("write", 2), ("write", 64), ("write", 65), ("write", 100), ("fsync", 1), ("fsync", 2)])
+    ops.append("fault call=%s nth=%d errno=%d path=wal_%s" % (call, nth, rng.choice([28, 5, 122]), " short=%d" % rng.choice([0, 10, 30]) if call == "write" else ""))
+    ops.append("batch_delete ids=%s" % show_vec(list(range(1, n + 1))))
+    ops += ["census", "restart", "census", "insert id=%d v=%s m=-" % (n + 1, persist.vbits(persist.rand_vec(rng, 1))), "restart", "census"]
+    return ops
+
+
 def gen(thorough, seed):
     rng = rng_for(seed, "C03/persist")
     n = 400 if thorough else 60
@@ -59,6 +73,8 @@ def gen(thorough, seed):
     for i in range(n):
         c = persist.gen_case(rng, n_ops=30 if thorough else 18, crash=False, torn=False, invalid=(i % 3 == 0))
         out.append(with_faults(rng, c))
+    for _ in range(30 if thorough else 6):
+        out.append(big_batch_fault_case(rng))
     return out
 
 
